@@ -176,6 +176,7 @@ PROPS = {
         level="proof",
         min_obligations=15,
         replay_family="c05",
+        both_float_cfgs=True,   # the stand-in runs against lexpr built with AND without fast-float-parsing (the property names both builds)
         kani=[dict(gen="kani/gen_f64.py", crate="kani_f64", harness="f64_from_parts_safe",
                    claim="Parser::f64_from_parts (fast-float build), extracted from /repo with the POW10 table: for ALL (sign, significand: u64, exponent: i32) no panic "
                          "(table index in bounds, exponent arithmetic cannot overflow), the scaling loop ends within 7 rounds (unwinding assertion on: complete, the value "
